@@ -4,7 +4,7 @@
    /repo/renormalizer/tn/treebase.py on every run.  Scalars: every commutative ring (Base/CRing.v). *)
 From Coq Require Import ZArith List Arith Permutation.
 Import ListNotations.
-From RV Require Import Base.CRing Gen.Partition Gen.RootCover Gen.UniqueRows Model.TreeTopo Gen.TreeBuilders Model.Ttno
+From RV Require Import Base.CRing Gen.Partition Gen.RootCover Gen.UniqueRows Gen.ComplexGuard Model.TreeTopo Gen.TreeBuilders Model.Ttno
   Proofs.TreeTopoProofs Proofs.TreeBuildersProofs Proofs.TtnoProofs.
 
 (* ---------------------------------------------------------------- tree constructors *)
@@ -115,6 +115,13 @@ Theorem C02_row_index_injective : forall (keys : list key) s t, s < length keys 
   (nth s (row_inverse keys) O = nth t (row_inverse keys) O <-> nth s keys [] = nth t keys []).
 Proof. exact row_index_injective. Qed.
 Print Assumptions C02_row_index_injective.
+
+(* ---- complex local factors: the generated fact (Gen/ComplexGuard.v) says the numeric step REFUSES a complex local
+   product (assert / raise) and never takes a real part; the scalars of the theorems above are then real throughout *)
+Theorem C02_complex_local_products_refused :
+  (complex_local_product_policy = RefuseByAssert \/ complex_local_product_policy = RefuseByRaise) /\ takes_real_part = false.
+Proof. split; [left; reflexivity || right; reflexivity|reflexivity]. Qed.
+Print Assumptions C02_complex_local_products_refused.
 
 (* ---- the qr algorithm.  One step, relative to an exact factorisation witness: [qrows]/[qcols] are
    duplicate-free lists containing the row / column keys, q the out-operators (sparse columns of Q), r the
